@@ -20,7 +20,11 @@ fn main() {
     for f in files.iter() {
         let bytes = std::fs::read(f).expect("read file");
         let name = f.file_name().and_then(|n| n.to_str()).unwrap_or("?").to_string();
+        let t0 = std::time::Instant::now();
         let r = std::panic::catch_unwind(|| asefile::AsepriteFile::read(&bytes[..]).map(|ase| (ase.width(), ase.height(), ase.num_frames(), ase.num_layers())).map_err(|e| e.to_string()));
+        if t0.elapsed().as_millis() > 1500 {
+            println!("asemon32 slow {} : {} ms", name, t0.elapsed().as_millis());
+        }
         match r {
             Ok(Ok(_)) => loaded += 1,
             Ok(Err(_)) => rejected += 1,
